@@ -72,6 +72,11 @@ GroupUnits(s) == {<<[m |-> "having", crit |-> Bin(">", Call("SUM", <<Fld(s, "b")
 
 JoinOn(s, t, how) == [m |-> "join", item |-> t, how |-> how, kind |-> "on", crit |-> Bin("=", Fld(s, "a"), Fld(t, "a")), cols |-> <<>>]
 Bases ==
+       \* a correlated subquery over an aliased twin of the OUTER statement's table (only judged inside that outer statement)
+       {<<"select-correlated", "A1", <<[m |-> "from_", src |-> "A1"], Sel(<<Fld("A1", "b")>>), Where(Bin("<>", Fld("A1", "a"), Fld("T1", "a")))>> >>,
+        <<"select-correlated", "A1", <<[m |-> "from_", src |-> "A1"], Sel(<<Fld("A1", "b")>>), Where(Bin("<", Fld("T1", "a"), Fld("A1", "a")))>> >>,
+        <<"select-correlated", "A1", <<[m |-> "from_", src |-> "A1"], Sel(<<Bin("+", Fld("A1", "b"), Num("1"))>>), Where(Bin("=", Fld("A1", "c"), Fld("T1", "c")))>> >>}
+  \cup
        {<<"select", s, <<[m |-> "from_", src |-> s], Sel(<<Fld(s, "a")>>)>> >> : s \in {"T1", "A3"}}
   \cup {<<"select-join", "T1", <<[m |-> "from_", src |-> "T1"], JoinOn("T1", "T2", h), Sel(<<Fld("T1", "a"), Fld("T2", "b")>>)>> >> : h \in {"", "LEFT"}}
   \cup {<<"select-join", "T1", <<[m |-> "from_", src |-> "T1"], [m |-> "join", item |-> "T2", how |-> "CROSS", kind |-> "cross", crit |-> Num("0"), cols |-> <<>>],
